@@ -31,6 +31,9 @@ def gen_knobs(rng: random.Random) -> dict:
         k["fd_order"] = "desc"
     if rng.random() < 0.1:
         k["rcvbuf_limit"] = pick(rng, [100000, 300000, 1048576])
+    if rng.random() < 0.12:
+        # uvloop-style transport: write() on a closing / lost transport raises synchronously
+        k["write_raises"] = pick(rng, ["RuntimeError", "OSError"])
     return k
 
 
